@@ -53,6 +53,20 @@ def to_bytes(tokens, rnd) -> bytes:
             rows += wire._ld(1, wire.enc_row({"r": "opt", "name": "", "pt": 1, "gen": True, "star": True, "mn": n, "mp": n, "md": n, "lt": 1, "ver": 1}))
         elif k == "entry":
             rows += wire._ld(1, wire.enc_row({"r": "name", "id": NUM[t[1]], "v": "x"}))
+        elif k in ("pfx-entry", "dt-entry"):
+            rows += wire._ld(1, wire.enc_row({"r": "pfx" if k == "pfx-entry" else "dt", "id": NUM[t[1]], "v": "x"}))
+        elif k == "metadata":
+            rows += wire._ld(15, wire._ld(1, b"k" * 50) + wire._ld(2, bytes(range(256)) * 4))
+        elif k == "many-rows":
+            rows += wire._ld(1, wire.enc_row({"r": "triple", "s": BN, "p": BN, "o": BN})) * 3_000
+        elif k == "many-empty-frames":
+            if rows:
+                close()
+            out += b"\x00" * 30_000
+        elif k == "namespace-row":
+            rows += wire._ld(1, wire.enc_row({"r": "ns", "name": "n" * 1000, "iri": {"t": "iri", "p": 2**32 - 1, "n": 2**32 - 1}}))
+        elif k == "graph-start-nested":
+            rows += wire._ld(1, wire._ld(4, wire._ld(4, b"\x0a\x01x" * 3)))      # graph_start with a literal graph, junk inside
         elif k == "statement":
             d = t[1]
             if d == "flat":
@@ -175,7 +189,7 @@ def main(tier: str) -> int:
         jobs.append(("tokens", toks, to_bytes(toks, rnd)))
     # longer hostile sequences (random walks over the same token alphabet), and byte-level perturbation of valid streams
     alphabet = sorted({json.dumps(t) for toks in inputs for t in toks})
-    for _ in range(300 if tier == "quick" else 5000):
+    for _ in range(200 if tier == "quick" else 5000):
         toks = [json.loads(rnd.choice(alphabet)) for _ in range(rnd.randrange(3, 9))]
         if rnd.random() < 0.7:
             toks = [["options", "8"]] + toks
@@ -186,7 +200,7 @@ def main(tier: str) -> int:
         behs, _ = writer.simulate(c, num=3, hist_len=8, seed=seed + 17)
         for beh in behs:
             valid.append(writer.replay_stepwise(beh, c, writer.Subst(), frame_size=3)["bytes"])
-    for _ in range(1200 if tier == "quick" else 60000):
+    for _ in range(800 if tier == "quick" else 60000):
         base = rnd.choice(valid)
         data = perturb(base, rnd)
         if rnd.random() < 0.3:
@@ -202,7 +216,8 @@ def main(tier: str) -> int:
         sources = ["bytesio", "raw"] if i % 3 else ["bytesio", "raw", "raw7"]
         if hangs >= 6:
             break                      # the point is made; every further hang costs a full watchdog period
-        res = pool.run({"id": i, "hex": data.hex(), "sources": sources}, timeout=8)
+        # the watchdog covers all 12-18 parses of one input: a fixed allowance plus time proportional to the input size ("promptly")
+        res = pool.run({"id": i, "hex": data.hex(), "sources": sources}, timeout=10 + len(data) / 4000)
         distinct.add(data)
         rp = {"kind": kind, "tokens": toks, "hex": data.hex()[:4000], "length": len(data)}
         if "hang" in res:
@@ -231,7 +246,7 @@ def main(tier: str) -> int:
         "rule": "TLC enumerates every hostile token sequence up to length MaxLen over the alphabet of spec/Hostile.tla (options with declared table sizes 0..2^32-1, entries with ids up to 2^32-1, "
                 "statements nested 3..5000 deep or with every term repeated, frames whose declared length is short, long, 2^31-1, 2^63-1 or an unterminated varint, empty frames, garbage, unknown fields) "
                 "and checks Progress/Bounded/termination of the abstract loop; each sequence, longer random walks over the same alphabet, and byte-level perturbations (bit flips, deletions, insertions, "
-                "splices, overlong varints, pure noise) of real streams are parsed by all six entry points from BytesIO and non-seekable sources in a worker with RLIMIT_AS=3GB and an 8 s watchdog. "
+                "splices, overlong varints, pure noise) of real streams are parsed by all six entry points from BytesIO and non-seekable sources in a worker with RLIMIT_AS=3GB and a watchdog of 10 s + 1 s per 4 kB of input. "
                 "distinct = distinct byte strings",
         "samples": samples, "outcome_histogram": outcomes, "inputs": len(jobs), "token_sequences_from_tlc": len(seen),
         "tlc_states": r.distinct, "wall_parse_s": round(time.time() - t0, 1),
